@@ -4,6 +4,7 @@ import TantivyModel.Proofs.ReaderPub
 import TantivyModel.Proofs.Generations
 import TantivyModel.Proofs.ReaderProgress
 import TantivyModel.Proofs.ReaderMutex
+import TantivyModel.Proofs.ReaderFresh
 /-!
 # C05 — Searchers are immutable snapshots; readers only ever see whole commits
 
@@ -355,6 +356,51 @@ theorem C05_served_commit_monotone_under_mutex (ρ : Nat) (t u : List Ev)
     (ha : served ρ (run init t) = some a) (hb : served ρ (run init (t ++ u)) = some b) : a ≤ b :=
   C05_served_commit_monotone ρ t u hv (sequential_of_mutex ρ (t ++ u) hv hm) a b ha hb
 
+/-- Freshness: a reload reflects every commit that was complete before it started — if meta_k
+was the newest meta when reload `r` took META_LOCK, whatever `r` publishes is meta_j with
+`k ≤ j` (together with `C05_served_commit_monotone_under_mutex`: once such a reload has
+returned, `searcher()` never again shows less than commit `k`). -/
+theorem C05_reload_reflects_commits_before_it_started (t1 t2 : List Ev) (r : Rid) (j : Nat)
+    (hv : valid full (t1 ++ .acquire r :: t2) = true)
+    (hp : (r, j) ∈ (run init (t1 ++ .acquire r :: t2)).pubs) :
+    (run init t1).metas.length - 1 ≤ j := by
+  have hv' : validFrom full init (t1 ++ .acquire r :: t2) = true := hv
+  rw [validFrom_append] at hv'
+  simp only [Bool.and_eq_true] at hv'
+  obtain ⟨hv1, hv2⟩ := hv'
+  have hI1 := inv_run init t1 inv_init hv1
+  have hv2' : ok full (run init t1) (.acquire r) = true ∧
+      validFrom full (step (run init t1) (.acquire r)) t2 = true := by
+    simpa [validFrom, check, Bool.and_eq_true] using hv2
+  have hF := fresh_run r _ _ t2 (fresh_after_acquire (run init t1) r hI1) hv2'.2
+  have hrun : run init (t1 ++ .acquire r :: t2) = run (step (run init t1) (.acquire r)) t2 := by
+    rw [run_append]; rfl
+  have hI := inv_run init _ inv_init hv
+  rw [hrun] at hp hI
+  exact hF.loaded j (hI.pubOk r j hp).2.1
+
+/-- The user-level statement (the oracle of the overlap explorer, as a theorem): under the reload
+mutex, once a reload of reader `ρ` that started when meta_k was the newest has published, what
+`searcher()` returns at the end of any continuation of the history — however many commits,
+merges, GCs and further reloads of `ρ` and of other readers it contains — is a commit `≥ k`. -/
+theorem C05_searcher_reflects_commits_before_a_returned_reload (ρ : Nat) (t1 t2 : List Ev)
+    (r : Rid) (j b : Nat) (hr : r.1 = ρ) (hv : valid full (t1 ++ .acquire r :: t2) = true)
+    (hm : mutexDisciplined ρ (t1 ++ .acquire r :: t2) = true)
+    (hp : (r, j) ∈ (run init (t1 ++ .acquire r :: t2)).pubs)
+    (hb : served ρ (run init (t1 ++ .acquire r :: t2)) = some b) :
+    (run init t1).metas.length - 1 ≤ b := by
+  have h1 := C05_reload_reflects_commits_before_it_started t1 t2 r j hv hp
+  have hs := C05_reloads_monotone_under_mutex ρ _ hv hm
+  have h2 := le_getLast_of_pairwise _ hs j b (mem_pubsOf_of_mem ρ _ r j hp hr) hb
+  omega
+
+/-- "for as long as it is held": the handles of a published reload are the same after any
+further history (any discipline; commits, merges, GC deletes, other reloads, writer drop) -/
+theorem C05_held_searcher_fixed_forever (d : Disc) (s : St) (u : List Ev) (r : Rid)
+    (hp : (s.rs r).phase = .published) (hv : validFrom d s u = true) :
+    searcherOf (run s u) r = searcherOf s r :=
+  (held_fixed_run d s u r (fun s e hp hok => C05_published_handles_fixed d s e r hp hok) hp hv).1
+
 /-! ### the main theorems with the discipline read off the source instead of assumed -/
 
 theorem C05_reload_whole_commit_of_source (t : List Ev) (hv : valid codeDisc t = true) :
@@ -414,6 +460,17 @@ example :
     mutexDisciplined 0 [.create 1 10, .saveMeta [1], .mLock (0, 0), .acquire (0, 0),
       .loadMeta (0, 0), .openFile (0, 0) 1, .release (0, 0), .create 2 20, .saveMeta [1, 2],
       .mLock (0, 1), .acquire (0, 1)] = false := by
+  decide
+
+/-- a searcher published on meta_1 and held while its files are merged away and deleted -/
+example :
+    let t : List Ev :=
+      [.create 1 10, .saveMeta [1], .acquire (0, 0), .loadMeta (0, 0), .openFile (0, 0) 1,
+       .release (0, 0), .warm (0, 0), .publish (0, 0)]
+    let u : List Ev :=
+      [.create 2 20, .saveMeta [2], .gcAcquire, .gcList [2], .gcRelease, .gcDelete 1]
+    ((run init t).rs (0, 0)).phase = .published ∧ validFrom full (run init t) u = true ∧
+      (run (run init t) u).deleted = [1] ∧ searcherOf (run (run init t) u) (0, 0) = [⟨1, 10⟩] := by
   decide
 
 /-- a publication without warming is what `warmedBeforePublish` excludes -/
